@@ -1,4 +1,26 @@
-import DDV.Gen.Lemmas.Tree
+/-
+  C13 — Accepted definitions never compute an address outside their address type.
+  (work in progress: table obligation and the bound checks; the reachability theorem follows)
+-/
+import DDV.Extracted.Tables
+import DDV.Gen.AddrSem
+
 namespace DDV.Props.C13
-theorem placeholder : True := trivial
+open DDV.Gen DDV.Extracted
+
+/-- The `Integer::{min,max}_value` arms of the source are the two's-complement ranges the model
+    uses (editing an arm breaks this obligation). -/
+theorem integer_table_matches_model :
+    integerTable = [("U8", Integer.u8.minValue, Integer.u8.maxValue), ("U16", Integer.u16.minValue, Integer.u16.maxValue),
+                    ("U32", Integer.u32.minValue, Integer.u32.maxValue), ("I8", Integer.i8.minValue, Integer.i8.maxValue),
+                    ("I16", Integer.i16.minValue, Integer.i16.maxValue), ("I32", Integer.i32.minValue, Integer.i32.maxValue),
+                    ("I64", Integer.i64.minValue, Integer.i64.maxValue)] := by decide
+
+theorem integer_ranges_are_twos_complement (t : Integer) :
+    (t.minValue, t.maxValue) = (match t with
+      | .u8 => (0, 2 ^ 8 - 1) | .u16 => (0, 2 ^ 16 - 1) | .u32 => (0, 2 ^ 32 - 1)
+      | .i8 => (-(2 ^ 7), 2 ^ 7 - 1) | .i16 => (-(2 ^ 15), 2 ^ 15 - 1) | .i32 => (-(2 ^ 31), 2 ^ 31 - 1)
+      | .i64 => (-(2 ^ 63), 2 ^ 63 - 1)) := by
+  cases t <;> decide
+
 end DDV.Props.C13
